@@ -485,6 +485,13 @@ class FakeDevice:
             while True:
                 d = await r.read(4096)
                 if not d: break
+                if len(d) >= 4 and d[:2] == b"\xfe\xf0":          # a frame that announces more bytes than this chunk holds may have been cut by the transport (a busy machine):
+                    want = int.from_bytes(d[2:4], "little")      # the rest is given half a second to arrive before the chunk is taken as it is (FA16)
+                    while len(d) < want <= 8192:
+                        try: more = await asyncio.wait_for(r.read(want - len(d)), 0.5)
+                        except asyncio.TimeoutError: break
+                        if not more: break
+                        d += more
                 self.log.append((n, d))
                 if half: continue               # the sending direction is closed: whatever else arrives is read and not answered
                 if self.script: reply = self.script.pop(0)
